@@ -21,6 +21,7 @@ type plan struct {
 	Cut            int    // 0: none; i in 1..4: message i is dropped and the stream is closed
 	DialFail       bool   // DialStream fails
 	Write1Fail     bool   // the stream is dead when the renter writes its request
+	Hold           bool   // park the exchange once the renter's signatures were read (the host waits with its inputs reserved) until released, then cut
 	T1, T2, T3, T4 string // rewriting of message i
 }
 
@@ -128,6 +129,8 @@ type mitm struct {
 	dlvR3     proto4.Object // final response as delivered to the renter
 	hostErr   string        // RPC error the host answered with
 	done      chan struct{}
+	reached   chan struct{} // closed when a held exchange is parked
+	release   chan struct{} // closed to let a held exchange go
 }
 
 func (m *mitm) FrameSize() int           { return m.inner.FrameSize() }
@@ -226,6 +229,11 @@ func (m *mitm) relay(cli net.Conn) {
 	}
 
 	if err := proto4.ReadResponse(cli, wr.r2); err != nil {
+		return
+	}
+	if m.plan.Hold {
+		close(m.reached)
+		<-m.release
 		return
 	}
 	if m.plan.Cut == 3 {
